@@ -5,5 +5,6 @@ CONSTANTS
   FlushAtomic = FALSE
   LatchChecked = TRUE
   CloseLatches = TRUE
+  TimeoutReleases = FALSE
 INVARIANTS TypeOK WholeFrames
 CHECK_DEADLOCK FALSE
